@@ -66,19 +66,22 @@ def parse_reports(text):
     return out
 
 
-def run_blocks(binp, blocks, wd, name, timeout=900):
+def run_blocks(binp, blocks, wd, name, timeout=240):
     pp = os.path.join(wd, name + ".prog")
     with open(pp, "w") as f:
         for b in blocks:
             f.write("\n".join(b) + "\n")
     env = dict(os.environ)
     env["TSAN_OPTIONS"] = "halt_on_error=0:exitcode=68:report_signal_unsafe=0:history_size=4"
+    p = subprocess.Popen([binp, "free", pp, os.path.join(wd, name + ".log")], stdout=subprocess.PIPE,
+                         stderr=subprocess.STDOUT, text=True, errors="replace", env=env)
     try:
-        r = subprocess.run([binp, "free", pp, os.path.join(wd, name + ".log")], stdout=subprocess.PIPE,
-                           stderr=subprocess.STDOUT, text=True, errors="replace", timeout=timeout, env=env)
-        return r.returncode, r.stdout
+        outp, _ = p.communicate(timeout=timeout)
+        return p.returncode, outp
     except subprocess.TimeoutExpired:
-        return 124, "TIMEOUT"
+        p.kill()
+        outp, _ = p.communicate()
+        return 124, (outp or "") + "\nTIMEOUT"
 
 
 def check(tier):
@@ -156,10 +159,11 @@ def check(tier):
     other_reports = 0
     with ThreadPoolExecutor(max_workers=NPROC) as ex:
         for kind, part, rc, outp in ex.map(work, jobs):
-            if rc not in (0, 68):
-                infra = "tsan run failed rc=%s: %s" % (rc, outp[-1500:])
+            reps = parse_reports(outp)
+            if rc not in (0, 68) and not any(r["in_library"] for r in reps):
+                infra = "tsan run failed rc=%s with no race report: %s" % (rc, outp[-1500:])
                 continue
-            for rep in parse_reports(outp):
+            for rep in reps:
                 if not rep["in_library"]:
                     other_reports += 1
                     continue
